@@ -79,7 +79,8 @@ def run_shard(ctx, idx, shard, timeout):
     opath = os.path.join(ctx.tmp, "out%d.jsonl" % idx)
     with open(spath, "w") as f:
         json.dump(shard, f)
-    cmd = [ctx.interps[v], "-X", "faulthandler", os.path.join(HARNESS, "worker.py"), ctx.prop, spath, opath]
+    flags = list(shard.get("pyflags", [])) + os.environ.get("VERIF_PYFLAGS", "").split()
+    cmd = [ctx.interps[v], "-X", "faulthandler"] + flags + [os.path.join(HARNESS, "worker.py"), ctx.prop, spath, opath]
     env = ctx.env()
     # string hashing is part of the configuration space: shards run under different (deterministic) hash seeds
     env["PYTHONHASHSEED"] = str((ctx.seed + idx) % 7)
@@ -104,6 +105,29 @@ def run_shard(ctx, idx, shard, timeout):
                     pass
     return {"idx": idx, "interp": v, "status": status, "stderr": err, "records": recs,
             "wall": time.time() - t, "label": shard.get("label", "")}
+
+
+def o_twins(ctx, mod, shards):
+    """The interpreter's own mode is part of the configuration space: per interpreter one of the planned shards
+    (a different slice for each interpreter and seed) is run a second time under `python -O -b` / `-OO -b`: assert
+    statements of the library are compiled away and a str/bytes comparison inside the library is an error (as under
+    `python -bb`; the worker installs the filter for the library's modules only).  Purely additive: the plain shard still runs."""
+    if not getattr(mod, "O_TWIN", True):
+        return []
+    by = {}
+    for s in shards:
+        if not s.get("pyflags") and not s.get("no_twin"):
+            by.setdefault(s["interp"], []).append(s)
+    out = []
+    for n, v in enumerate(sorted(by)):
+        if v not in PRODUCERS:
+            continue
+        lst = by[v]
+        t = json.loads(json.dumps(lst[(ctx.seed + n) % len(lst)]))
+        t["pyflags"] = (["-O"] if (ctx.seed + n) % 3 else ["-OO"]) + ["-b"]
+        t["label"] = t.get("label", "") + ":" + "".join(t["pyflags"])
+        out.append(t)
+    return out
 
 
 def load_known(prop):
@@ -138,6 +162,7 @@ def _check(ctx, mod, replay_shard):
         shards = [replay_shard]
     else:
         shards = mod.plan(ctx)
+        shards = shards + o_twins(ctx, mod, shards)
     timeout = getattr(mod, "TIMEOUT", {"quick": 900, "thorough": 5400})[ctx.tier]
     results = []
     with concurrent.futures.ThreadPoolExecutor(max_workers=ctx.ncpu) as ex:
@@ -253,6 +278,8 @@ def _check(ctx, mod, replay_shard):
                 "counters": {k: counters[k] for k in sorted(counters)},
                 "features": {k: features[k] for k in sorted(features)},
                 "shards": len(results),
+                "shards_by_interpreter_mode": {m: sum(1 for s_ in shards if " ".join(s_.get("pyflags", [])) == m)
+                                               for m in sorted(set(" ".join(s_.get("pyflags", [])) for s_ in shards))},
                 "slowest_cases_s": sorted(slow_cases, reverse=True)[:6],
                 "shard_wall_s_max": round(max([r["wall"] for r in results] or [0]), 1),
                 "shard_wall_s_sum": round(sum(r["wall"] for r in results), 1),
@@ -330,6 +357,8 @@ def replay(path):
         shard = mod.replay_shard(v)
     else:
         shard = {"interp": v["interp"], "cases": [v["case"]], "label": "replay", "tier": "quick", "seed": 0}
+    if v.get("pyflags") and not shard.get("pyflags"):
+        shard["pyflags"] = v["pyflags"]          # the violation was observed in a `python -O` worker
     rc = check(prop, "quick", int(os.environ.get("VERIF_SEED", "0")), replay_shard=shard)
     return rc
 
